@@ -188,6 +188,10 @@ structure State where
   first : Option Nat
   last : Option Nat
   plen : Nat
+  /-- `payload_is_short`: a payload transfer of this frame was not filled completely -/
+  short : Bool
+  /-- `payload_has_gap`: a payload transfer received data after a short one -/
+  gap : Bool
   nextXfer : Nat
   nextBuf : Nat
   -- channels
@@ -214,7 +218,7 @@ structure State where
 def init (P : Params) : State :=
   { consumed := 0, pc := .top, cur := none, reuse := none,
     leaderBuf := List.replicate P.leaderSize 0, trailerBuf := List.replicate P.trailerSize 0,
-    pending := [], first := none, last := none, plen := 0, nextXfer := 0, nextBuf := 0,
+    pending := [], first := none, last := none, plen := 0, short := false, gap := false, nextXfer := 0, nextBuf := 0,
     chan := [], back := [], senderAlive := true, rxAlive := true, held := [], freed := [],
     ctl := .running, iterStart := 0, got := [], enq := false, sentLog := [], recvLog := [],
     faults := 0 }
@@ -280,6 +284,13 @@ def account (s : State) (len : Nat) : State :=
   | some _ => { s with plen := s.plen + len, last := some len }
 
 
+/-- The contiguity bookkeeping of the poll loop for a payload transfer (`payload` = the transfer
+is neither the first (leader) nor the last (trailer) one) that received `len` of `slotLen` bytes. -/
+def gapUpd (s : State) (payload : Bool) (len slotLen : Nat) : State :=
+  if payload then
+    { s with gap := s.gap || (s.short && decide (len ≠ 0)), short := s.short || decide (len < slotLen) }
+  else s
+
 section
 variable (P : Params) (A : Assembler) (script : List Item)
 
@@ -320,7 +331,7 @@ def stepSubmitOk (s : State) : Option State :=
     | some sl =>
       let s1 := { s with pending := s.pending ++ [Xfer.mk s.nextXfer sl], nextXfer := s.nextXfer + 1 }
       if k + 1 < P.T then some { s1 with pc := .submit (k + 1) }
-      else some { s1 with pc := .poll, first := none, last := none, plen := 0 }
+      else some { s1 with pc := .poll, first := none, last := none, plen := 0, short := false, gap := false }
     | none => none
   | _ => none
 
@@ -341,7 +352,8 @@ def stepPollOk (s : State) : Option State :=
     match s.pending, script[s.consumed]? with
     | x :: rest, some (.data d) =>
       if d.length ≤ x.slot.len then
-        let s1 := account (applyData s x.slot d) d.length
+        let s1 := gapUpd (account (applyData s x.slot d) d.length)
+          (s.first.isSome && !rest.isEmpty) d.length x.slot.len
         some { s1 with pending := rest, consumed := s.consumed + 1, got := s.got ++ [d],
                        pc := if rest = [] then .parse else .poll }
       else none
@@ -375,14 +387,19 @@ def stepPollPending (s : State) : Option State :=
     | [] => none
   else none
 
-/-- `payload_len - last_buf_len.unwrap()`, `Leader::parse`, `Trailer::parse`, block id check,
-`build`. -/
+/-- `payload_len - last_buf_len.unwrap()`, the gap check, `Leader::parse`, `Trailer::parse`,
+block id check, `build`. -/
 def stepParse (s : State) : Option State :=
   if s.pc = .parse then
     match s.last, s.cur with
     | some l, some b =>
       if l ≤ s.plen then
         let read := s.plen - l
+        if s.gap then
+          -- the payload transfers left a hole in the buffer: report, keep the buffer
+          some { s with reuse := s.cur, cur := none, faults := s.faults + 1,
+                        pc := .send (.err .invalidPayload) }
+        else
         -- only the bytes received in this iteration are parsed
         let ll := min (s.first.getD 0) s.leaderBuf.length     -- `first_buf_len.unwrap_or(0).min(len)`
         let tl := min l s.trailerBuf.length
